@@ -31,6 +31,22 @@ type internalHandler struct {
 	filter         any // Predicate function for filtering events
 	mu             sync.Mutex
 	executed       uint32 // For once handlers, atomically tracks if executed
+
+	// Async+Sequential deliveries run in dispatch order: each one waits for
+	// the delivery dispatched before it (orderTail) to finish.
+	orderMu   sync.Mutex
+	orderTail chan struct{}
+}
+
+// enqueueOrdered links a new Async+Sequential delivery behind the previous
+// one. It returns the channel to wait on before running (nil if there is no
+// predecessor) and the channel to close when the delivery is over.
+func (h *internalHandler) enqueueOrdered() (prev, done chan struct{}) {
+	done = make(chan struct{})
+	h.orderMu.Lock()
+	prev, h.orderTail = h.orderTail, done
+	h.orderMu.Unlock()
+	return prev, done
 }
 
 // PanicHandler is called when a handler panics
@@ -415,9 +431,21 @@ func PublishContext[T any](bus *EventBus, ctx context.Context, event T) {
 		if h.async {
 			wg.Add(1)
 			bus.wg.Add(1)
+			// Sequential: deliveries are queued here, on the publishing
+			// goroutine, so they are processed in publish order
+			var prev, done chan struct{}
+			if h.sequential {
+				prev, done = h.enqueueOrdered()
+			}
 			go func(handler *internalHandler) {
 				defer wg.Done()
 				defer bus.wg.Done()
+				if done != nil {
+					defer close(done)
+					if prev != nil {
+						<-prev
+					}
+				}
 
 				// Check context before executing. A Once handler has already been
 				// claimed and retired by this publish (whose context was live at
